@@ -139,6 +139,40 @@ def run(ctx: Ctx):
                     den = den.args[0]          # capacity[:, None]: a broadcasting view
                 ok = den.op == "sub" and vg.is_const(den.args[1], "capacity") and nf.norm(den.args[0]) is cb and frc.ret is base
     ctx.ob("C19.b", "CVRPEnv.load_data:normalisation", ok, cv.loc, "the loaded file's demand := demand / capacity, once, and that same TensorDict is returned (writer stores raw integer demands and the capacity)", construct="CVRPEnv.load_data:normalise")
+    # MTVRP: the loader's `scale` option must rescale exactly the keys the generator's own `scale_demand` option rescales (siblings)
+    from ..envs import generator_slot as _gslot
+    menv = EnvA(ctx.repo, T.ALL_ENVS["MTVRPEnv"], "MTVRPEnv")
+    g_m, gsl_m = _gslot(ctx.repo, menv.cls)
+    if gsl_m is None or gsl_m.td is None:
+        raise AnalysisError("MTVRPGenerator._generate not analysable")
+    ctx.fn(gsl_m.fi)
+
+    def depends_on_flag(v, flag):
+        return any(n.op in ("phi", "ifexp") and any(m.op == "selfattr" and m.args[0] == flag for m in vg.walk(n.args[0])) and n.args[1] is not n.args[2] for n in vg.walk(v))
+    gen_scaled = {k for k, v in gsl_m.td.cells.items() if isinstance(v, vg.S) and depends_on_flag(v, "scale_demand")}
+    ml = menv.resolve("load_data")
+    ctx.fn(ml)
+    itm = vg.Interp(ctx.repo, ml.cls, inline_policy=lambda f, a: False)
+    itm.run_function(ml)
+    flag_p = "scale"
+    load_scaled = set()
+    for e in itm.events:
+        if e.kind == "methcall" and e.data[1] == "set" and len(e.data[2]) == 2 and e.data[2][0].op == "const" and any(c_.op == "param" and c_.args[0] == flag_p for c_ in e.conds if isinstance(c_, vg.S)):
+            key = e.data[2][0].args[0]
+            val = e.data[2][1]
+            # rescaled by the original capacity: key / <loaded>['capacity_original']
+            pv = nf.poly(val)
+            rec = [a_ for a_ in pv.atoms() if a_.op == "recip" and any(vg.is_const(n.args[1], "capacity_original") for n in vg.walk(a_) if n.op == "sub")]
+            if rec:
+                load_scaled.add(key)
+    if len(gen_scaled) < 2:
+        raise AnalysisError(f"MTVRPGenerator: keys that depend on scale_demand not found ({sorted(gen_scaled)})")
+    ok = gen_scaled == load_scaled
+    ctx.ob("C19.b", "MTVRPEnv.load_data:scale-siblings", ok, ml.loc,
+           f"generator (scale_demand) rescales {sorted(gen_scaled)}; load_data(scale=True) rescales {sorted(load_scaled)} by capacity_original" +
+           ("" if ok else f" -- not rescaled on loading: {sorted(gen_scaled - load_scaled)}; rescaled only on loading: {sorted(load_scaled - gen_scaled)}: a file written unscaled and loaded with scale=True "
+            "is not the instance the scaled generator would have produced (the capacity constraint compares normalised demands with an un-normalised capacity)"),
+           construct="MTVRPEnv.load_data:scale:" + ",".join(sorted(gen_scaled ^ load_scaled)))
     # ---------------- c: FJSP text format
     w = ctx.repo.get_function(FP, "write_one")
     r = ctx.repo.get_function(FP, "read")
